@@ -27,6 +27,7 @@ func init() {
 			{ID: "C02-R4", Title: "variable instructions carry an operand of their own namespace", Floor: 30, Run: c02r4},
 			{ID: "C02-R5", Title: "initializer compiled before the declared name is inserted", Floor: 2, Run: c02r5},
 			{ID: "C02-R6", Title: "frame slots are unique per function", Floor: 2, Run: c02r6},
+			{ID: "C02-R7", Title: "the dispatch loop keeps no stale copy of the frame's locals", Floor: 1, Run: dispatchUsesLiveFrameState},
 		},
 	})
 }
